@@ -6,6 +6,7 @@ Race-freedom itself is not a theorem (the model has no memory accesses); its log
 step) against `rotation_lost_update_old_witness` (the former non-atomic shape).
 -/
 import Vegeta.Model.Dial
+import Vegeta.Model.DialCompose
 import Vegeta.Extracted.Facts
 namespace Vegeta.Props.C18
 open Vegeta.Go Vegeta.Model.Dial
@@ -891,5 +892,338 @@ theorem facts_command_option_order :
     Vegeta.Extracted.c18CommandDialOptionOrder =
       [ [76, 111, 99, 97, 108, 65, 100, 100, 114], [75, 101, 101, 112, 65, 108, 105, 118, 101], [72, 50, 67], [85, 110, 105, 120, 83, 111, 99, 107, 101, 116], [68, 78, 83, 67, 97, 99, 104, 105, 110, 103], [67, 111, 110, 110, 101, 99, 116, 84, 111] ]
     := by decide
+
+/-! ### composition of the options on the dial function -/
+
+/-- the wrappers a list of options installs, in application order, provided none of them resets
+the dial function or swaps the transport -/
+def Harmless : Opt → Bool
+  | .keepAlive on => on
+  | .h2c on => !on
+  | .unixSocket given => !given
+  | .dnsCaching _ => true
+  | .connectTo _ => true
+  | .other => true
+  | .localAddr => false
+  | .baseDial => false
+
+def wrapOf : Opt → List Wrap
+  | .dnsCaching neg => if neg then [] else [.dns]
+  | .connectTo empty => if empty then [] else [.connectTo]
+  | _ => []
+
+theorem aux_applyOpt_harmless (st : TrState) (h : st.isHTTP = true) (o : Opt) (ho : Harmless o = true) :
+    applyOpt st o = .ok { st with wraps := wrapOf o ++ st.wraps } := by
+  obtain ⟨ih, b, w⟩ := st
+  simp only at h; subst h
+  cases o with
+  | localAddr => simp [Harmless] at ho
+  | baseDial => simp [Harmless] at ho
+  | keepAlive on => simp [Harmless] at ho; subst ho; simp [applyOpt, wrapOf]
+  | h2c on => simp [Harmless] at ho; subst ho; simp [applyOpt, wrapOf]
+  | unixSocket g => simp [Harmless] at ho; subst ho; simp [applyOpt, wrapOf]
+  | other => simp [applyOpt, wrapOf]
+  | dnsCaching neg => cases neg <;> simp [applyOpt, wrapOf]
+  | connectTo e => cases e <;> simp [applyOpt, wrapOf]
+
+theorem aux_wrapOf_reverse (o : Opt) : (wrapOf o).reverse = wrapOf o := by
+  cases o <;> simp [wrapOf] <;> split <;> simp
+
+/-- options that only wrap: each `DNSCaching` (ttl ≥ 0) / `ConnectTo` (non-empty map) goes AROUND
+what is there, so the option applied last is outermost -/
+theorem aux_apply_wrapping : ∀ (os : List Opt) (st : TrState), st.isHTTP = true → (∀ o ∈ os, Harmless o = true) →
+    applyAll st os = .ok { st with wraps := (os.flatMap wrapOf).reverse ++ st.wraps } := by
+  intro os
+  induction os with
+  | nil => intro st _ _; simp [applyAll]
+  | cons o r ih =>
+    intro st h hh
+    have ho := hh o (by simp)
+    have hr : ∀ o ∈ r, Harmless o = true := fun x hx => hh x (by simp [hx])
+    unfold applyAll
+    rw [aux_applyOpt_harmless st h o ho]
+    simp only
+    rw [ih { st with wraps := wrapOf o ++ st.wraps } h hr]
+    simp [aux_wrapOf_reverse]
+
+/-- For EVERY sequence of options: if it has the form `pre ++ [reset] ++ post` where `reset`
+re-installs a bare dial function (`LocalAddr`, `KeepAlive(false)`, a unix socket, VerifBaseDial)
+and `post` only wraps, then whatever `pre` installed is gone: the dial function is exactly the
+wrappers of `post` (last applied outermost) around the function `reset` installed. -/
+theorem options_after_reset (pre post : List Opt) (st : TrState) (r : Opt) (b : Base)
+    (hpre : applyAll TrState.init pre = .ok st) (hst : st.isHTTP = true)
+    (hr : applyOpt st r = .ok { st with base := b, wraps := [] })
+    (hpost : ∀ o ∈ post, Harmless o = true) :
+    applyAll TrState.init (pre ++ [r] ++ post) = .ok { st with base := b, wraps := (post.flatMap wrapOf).reverse } := by
+  have happ : ∀ (a c : List Opt) (s s' : TrState), applyAll s a = .ok s' → applyAll s (a ++ c) = applyAll s' c := by
+    intro a
+    induction a with
+    | nil => intro c s s' h; simp [applyAll] at h; subst h; rfl
+    | cons o os ih =>
+      intro c s s' h
+      simp only [List.cons_append, applyAll] at h ⊢
+      cases ho : applyOpt s o with
+      | ok s1 => rw [ho] at h; simp only at h ⊢; exact ih c s1 s' h
+      | error e => rw [ho] at h; cases h
+      | panic => rw [ho] at h; cases h
+  rw [List.append_assoc, happ pre ([r] ++ post) _ st hpre]
+  simp only [List.singleton_append, applyAll, hr]
+  have := aux_apply_wrapping post { st with base := b, wraps := [] } hst hpost
+  rw [this]; simp
+
+/-- The command's order (`LocalAddr, KeepAlive, H2C, UnixSocket, DNSCaching, ConnectTo`), for
+EVERY combination of the dial-related flags without -h2c: the dial function is
+`connectTo ∘ dnsCache ∘ base` — ConnectTo outermost (present iff a mapping was given), the DNS
+cache inside it (present iff the ttl is not negative), around the attacker's own dialer or the
+unix-socket dial — and this is so for BOTH values of -keepalive. -/
+theorem command_dial_composition (f : DialFlags) (hh : f.h2c = false) :
+    applyAll TrState.init (cmdOpts f) =
+      .ok { isHTTP := true, base := if f.unixSocket then .unix else .dialer,
+            wraps := (if f.emptyMap then [] else [.connectTo]) ++ (if f.negativeTTL then [] else [.dns]) } := by
+  obtain ⟨k, h, u, n, e⟩ := f
+  simp only at hh; subst hh
+  cases k <;> cases u <;> cases n <;> cases e <;> rfl
+
+/-- with -h2c the transport is swapped before `DNSCaching` and `ConnectTo` are applied: both (and a
+unix socket) are silently ignored — the dial function stays the bare dialer -/
+theorem command_dial_composition_h2c (f : DialFlags) (hh : f.h2c = true) :
+    applyAll TrState.init (cmdOpts f) = .ok { isHTTP := false, base := .dialer, wraps := [] } := by
+  obtain ⟨k, h, u, n, e⟩ := f
+  simp only at hh; subst hh
+  cases k <;> cases u <;> cases n <;> cases e <;> rfl
+
+/-- the order of the seeded change (wrappers installed before `KeepAlive`): with -keepalive=false
+every wrapper is dropped, for every other flag value; with keep-alive on nothing differs from
+the command's order -/
+theorem moved_up_order_counterexample (f : DialFlags) (hh : f.h2c = false) :
+    (f.keepAlive = false → applyAll TrState.init (cmdOptsMovedUp f) =
+      .ok { isHTTP := true, base := if f.unixSocket then .unix else .dialer, wraps := [] }) ∧
+    (f.keepAlive = true → f.unixSocket = false → applyAll TrState.init (cmdOptsMovedUp f) = applyAll TrState.init (cmdOpts f)) := by
+  obtain ⟨k, h, u, n, e⟩ := f
+  simp only at hh; subst hh
+  constructor
+  · intro hk; simp only at hk; subst hk
+    cases u <;> cases n <;> cases e <;> rfl
+  · intro hk hu; simp only at hk hu; subst hk; subst hu
+    cases n <;> cases e <;> rfl
+
+/-- options that type-assert the transport panic once H2C(true) has swapped it -/
+theorem options_after_h2c (st : TrState) (h : st.isHTTP = false) :
+    applyOpt st .localAddr = .panic ∧ (∀ b, applyOpt st (.keepAlive b) = .panic) ∧ (∀ b, applyOpt st (.h2c b) = .panic) ∧
+    (∀ b, applyOpt st (.dnsCaching b) = .ok st) ∧ (∀ b, applyOpt st (.connectTo b) = .ok st) ∧
+    (∀ b, applyOpt st (.unixSocket b) = .ok st) ∧ applyOpt st .baseDial = .ok st := by
+  simp [applyOpt, h]
+
+example : applyAll TrState.init [.baseDial, .dnsCaching false, .connectTo false] =
+    .ok { isHTTP := true, base := .custom, wraps := [.connectTo, .dns] } := by decide
+
+example : applyAll TrState.init ([.dnsCaching false] ++ [.keepAlive false] ++ [.connectTo false, .other]) =
+    .ok { isHTTP := true, base := .dialer, wraps := [.connectTo] } :=
+  options_after_reset [.dnsCaching false] [.connectTo false, .other] _ (.keepAlive false) .dialer rfl rfl rfl (by decide)
+
+/-! ### the DNS cache with a positive ttl: refresh -/
+
+/-- the entry, if any, holds what the DNS answers now -/
+def Fresh (st : CacheSt α) : Prop := ∀ e, st.entry = some e → e.addrs = st.dns
+
+/-- `Refresh(true)` leaves the cache fresh, whatever the state before: a used entry is re-resolved,
+an unused one is deleted -/
+theorem refresh_makes_fresh (fam : α → Family) (st : CacheSt α) : Fresh (cacheStep fam true st .refresh).1 := by
+  unfold cacheStep
+  cases he : st.entry with
+  | none => simp only; intro e h; rw [he] at h; cases h
+  | some e =>
+    simp only
+    by_cases hused : e.used = true
+    · rw [if_pos hused]; intro e' h; simp at h; rw [← h]
+    · rw [if_neg hused]; simp only [if_true]; intro e' h; cases h
+
+theorem aux_step_preserves_fresh (fam : α → Family) (c : Bool) (st : CacheSt α) (hf : Fresh st) (ev : CEv α)
+    (hev : ∀ a, ev ≠ .change a) : Fresh (cacheStep fam c st ev).1 := by
+  cases ev with
+  | change a => exact absurd rfl (hev a)
+  | dial js =>
+    unfold cacheStep
+    cases he : st.entry with
+    | none => simp only; intro e h; simp at h; rw [← h]
+    | some e =>
+      simp only; intro e' h; simp at h; rw [← h]; exact hf e he
+  | refresh =>
+    unfold cacheStep
+    cases he : st.entry with
+    | none => simp only; intro e h; rw [he] at h; cases h
+    | some e =>
+      simp only
+      split
+      · intro e' h; simp at h; rw [← h]
+      · split
+        · intro e' h; cases h
+        · exact hf
+
+def isChange : CEv α → Bool
+  | .change _ => true
+  | _ => false
+
+theorem aux_run_preserves_fresh (fam : α → Family) (c : Bool) : ∀ (evs : List (CEv α)) (st : CacheSt α), Fresh st →
+    (∀ ev ∈ evs, isChange ev = false) → Fresh (cacheRun fam c st evs).1 ∧ (cacheRun fam c st evs).1.dns = st.dns := by
+  intro evs
+  induction evs with
+  | nil => intro st hf _; exact ⟨hf, rfl⟩
+  | cons ev r ih =>
+    intro st hf hno
+    have hev : ∀ a, ev ≠ .change a := by
+      intro a h; have := hno ev (by simp); rw [h] at this; simp [isChange] at this
+    have h1 := aux_step_preserves_fresh fam c st hf ev hev
+    have hd : (cacheStep fam c st ev).1.dns = st.dns := by
+      cases ev with
+      | change a => exact absurd rfl (hev a)
+      | dial js => unfold cacheStep; cases st.entry <;> rfl
+      | refresh =>
+        unfold cacheStep; cases st.entry with
+        | none => rfl
+        | some e => simp only; split; · rfl
+                    split <;> rfl
+    obtain ⟨i1, i2⟩ := ih (cacheStep fam c st ev).1 h1 (fun x hx => hno x (by simp [hx]))
+    unfold cacheRun
+    exact ⟨i1, by rw [← hd]; exact i2⟩
+
+/-- a dial in a fresh state is a dial on the CURRENT answer -/
+theorem aux_dial_fresh (fam : α → Family) (c : Bool) (st : CacheSt α) (hf : Fresh st) (js : List Nat) :
+    (cacheStep fam c st (.dial js)).2 = (dialStep fam js st.dns).1 := by
+  unfold cacheStep
+  cases he : st.entry with
+  | none => rfl
+  | some e => simp only; rw [hf e he]
+
+/-- "every connection attempt … goes to an address currently resolved for it", with the delay
+stated exactly: take ANY history (dials, refresh ticks, changes of the DNS answer, in any order
+and number), then ONE refresh tick, then any number of dials and ticks but no further change.
+Every dial after that tick goes only to addresses of the answer current at that time, one of
+every family in it, and every valid address of that answer can be picked. -/
+theorem no_withdrawn_address_after_refresh (fam : α → Family) (st0 : CacheSt α) (before after : List (CEv α)) (js : List Nat)
+    (hno : ∀ ev ∈ after, isChange ev = false) :
+    let st1 := (cacheRun fam true st0 before).1
+    let st := (cacheRun fam true (cacheStep fam true st1 .refresh).1 after).1
+    st.dns = st1.dns ∧
+    (cacheStep fam true st (.dial js)).2 = (dialStep fam js st1.dns).1 ∧
+    (∀ x ∈ (cacheStep fam true st (.dial js)).2, x ∈ st1.dns) ∧
+    (∀ x ∈ st1.dns, fam x ≠ .invalid → ∃ z ∈ (cacheStep fam true st (.dial js)).2, fam z = fam x) ∧
+    (∀ x ∈ st1.dns, fam x ≠ .invalid → ∃ js', x ∈ (cacheStep fam true st (.dial js')).2) := by
+  intro st1 st
+  have hfresh := refresh_makes_fresh fam st1
+  have hdns1 : (cacheStep fam true st1 .refresh).1.dns = st1.dns := by
+    unfold cacheStep; cases st1.entry with
+    | none => rfl
+    | some e => simp only; split <;> rfl
+  obtain ⟨hf, hd⟩ := aux_run_preserves_fresh fam true after _ hfresh hno
+  have hdns : st.dns = st1.dns := by rw [← hdns1]; exact hd
+  have hdial : ∀ js', (cacheStep fam true st (.dial js')).2 = (dialStep fam js' st1.dns).1 := by
+    intro js'; rw [aux_dial_fresh fam true st hf js', hdns]
+  refine ⟨hdns, hdial js, ?_, ?_, ?_⟩
+  · intro x hx; rw [hdial js] at hx
+    have := dial_targets_subset_resolved fam [js] st1.dns (dialStep fam js st1.dns).1 (by simp [dialMany]) x hx
+    exact this
+  · intro x hx hv; rw [hdial js]; exact (dial_one_per_family fam js st1.dns).2.2.2 x hx hv
+  · intro x hx hv
+    obtain ⟨js', h⟩ := every_address_reachable fam st1.dns x hx hv
+    exact ⟨js', by rw [hdial js']; exact h⟩
+
+/-- the delay is real: until the next tick an entry keeps the list it was resolved with — dials go
+to withdrawn addresses (here: answer `[0]` cached, changed to `[1]`, dialled before the tick) -/
+example : (cacheRun fam4 true { entry := none, dns := [0] } [.dial [], .change [1], .dial []]).2 = [[0], [0]] := by decide
+example : (cacheRun fam4 true { entry := none, dns := [0] } [.dial [], .change [1], .refresh, .dial []]).2 = [[0], [1]] := by decide
+
+/-- A host that is not dialled between two ticks is dropped from the cache (`Refresh(true)` clears
+entries not used since the previous refresh): whatever happened before, after a tick, any changes
+of the DNS answer, and another tick — no dial in between — nothing is cached, so the next dial
+resolves anew and goes to the current answer. -/
+theorem idle_entry_dropped (fam : α → Family) (st0 : CacheSt α) (ch1 ch2 : List (CEv α)) (js : List Nat)
+    (h1 : ∀ ev ∈ ch1, isChange ev = true) (h2 : ∀ ev ∈ ch2, isChange ev = true) :
+    let st := (cacheRun fam true st0 ([.refresh] ++ ch1 ++ [.refresh] ++ ch2)).1
+    st.entry = none ∧ (cacheStep fam true st (.dial js)).2 = (dialStep fam js st.dns).1 := by
+  intro st
+  -- changes touch only the DNS answer
+  have hch : ∀ (ch : List (CEv α)) (s : CacheSt α), (∀ ev ∈ ch, isChange ev = true) → (cacheRun fam true s ch).1.entry = s.entry := by
+    intro ch
+    induction ch with
+    | nil => intro s _; rfl
+    | cons ev r ih =>
+      intro s hh
+      cases ev with
+      | change a => unfold cacheRun; simp only [cacheStep]; exact ih _ (fun x hx => hh x (by simp [hx]))
+      | dial js => have := hh (.dial js) (by simp); simp [isChange] at this
+      | refresh => have := hh .refresh (by simp); simp [isChange] at this
+  have happ : ∀ (a c : List (CEv α)) (s : CacheSt α), (cacheRun fam true s (a ++ c)).1 = (cacheRun fam true (cacheRun fam true s a).1 c).1 := by
+    intro a
+    induction a with
+    | nil => intro c s; rfl
+    | cons ev r ih => intro c s; simp only [List.cons_append, cacheRun]; exact ih c _
+  -- after the first tick the entry, if any, is unused
+  have hun : ∀ (s : CacheSt α) e, (cacheStep fam true s .refresh).1.entry = some e → e.used = false := by
+    intro s e h
+    cases hs : s.entry with
+    | none => simp [cacheStep, hs] at h
+    | some e0 =>
+      by_cases hu : e0.used = true
+      · simp [cacheStep, hs, hu] at h; rw [← h]
+      · simp [cacheStep, hs, hu] at h
+  have hent : st.entry = none := by
+    show (cacheRun fam true st0 ([.refresh] ++ ch1 ++ [.refresh] ++ ch2)).1.entry = none
+    rw [happ, hch ch2 _ h2, happ, happ]
+    generalize hs1 : (cacheRun fam true st0 [.refresh]).1 = s1
+    have hs1' : s1 = (cacheStep fam true st0 .refresh).1 := by rw [← hs1]; rfl
+    generalize hs2 : (cacheRun fam true s1 ch1).1 = s2
+    have he2 : s2.entry = s1.entry := by rw [← hs2]; exact hch ch1 s1 h1
+    show (cacheStep fam true s2 .refresh).1.entry = none
+    cases h : s2.entry with
+    | none => simp [cacheStep, h]
+    | some e =>
+      have : e.used = false := hun st0 e (by rw [← hs1', ← he2]; exact h)
+      simp [cacheStep, h, this]
+  refine ⟨hent, ?_⟩
+  simp [cacheStep, hent]
+
+/-- `Refresh(false)` instead (a seeded change): an entry that is not dialled between two ticks is
+kept but never re-resolved — it keeps a withdrawn answer through any number of ticks, and the next
+dial goes there -/
+theorem refresh_keeping_unused_entries_is_stale_witness :
+    (cacheRun fam4 false { entry := none, dns := [0] } [.dial [], .refresh, .change [1], .refresh, .refresh, .refresh, .dial []]).2 = [[0], [0]] ∧
+    (cacheRun fam4 true { entry := none, dns := [0] } [.dial [], .refresh, .change [1], .refresh, .refresh, .refresh, .dial []]).2 = [[0], [1]] := by
+  decide
+
+
+/-- the ticker goroutine of `DNSCaching` calls `Refresh(true)`: entries not used since the previous
+refresh are cleared (the `clearUnused = true` of the cache model) -/
+theorem facts_dns_refresh_clears_unused :
+    Vegeta.Extracted.c18DnsRefreshCall = [114, 101, 115, 111, 108, 118, 101, 114, 46, 82, 101, 102, 114, 101, 115, 104, 40, 116, 114, 117, 101, 41]   -- resolver.Refresh(true)
+    := by decide
+
+/-- every option of lib/attack.go that assigns the transport's dial function or the transport: the
+two that re-install the bare dialer (`LocalAddr`; `KeepAlive` when off), `H2C` swapping the transport,
+the unix-socket dial, and the two wrappers; and which options type-assert the transport without the
+`ok` form (they panic once it was swapped) — the transition function `applyOpt` of the model -/
+theorem facts_options_on_dial_function :
+    Vegeta.Extracted.c18DialAssignments =
+      [ [76, 111, 99, 97, 108, 65, 100, 100, 114, 58, 32, 116, 114, 46, 68, 105, 97, 108, 67, 111, 110, 116, 101, 120, 116, 32, 61, 32, 97, 46, 100, 105, 97, 108, 101, 114, 46, 68, 105, 97, 108, 67, 111, 110, 116, 101, 120, 116],   -- LocalAddr: tr.DialContext = a.dialer.DialContext
+        [75, 101, 101, 112, 65, 108, 105, 118, 101, 32, 91, 105, 102, 32, 33, 107, 101, 101, 112, 97, 108, 105, 118, 101, 93, 58, 32, 116, 114, 46, 68, 105, 97, 108, 67, 111, 110, 116, 101, 120, 116, 32, 61, 32, 97, 46, 100, 105, 97, 108, 101, 114, 46, 68, 105, 97, 108, 67, 111, 110, 116, 101, 120, 116],   -- KeepAlive [if !keepalive]: tr.DialContext = a.dialer.DialContext
+        [72, 50, 67, 32, 91, 105, 102, 32, 101, 110, 97, 98, 108, 101, 100, 93, 58, 32, 97, 46, 99, 108, 105, 101, 110, 116, 46, 84, 114, 97, 110, 115, 112, 111, 114, 116, 32, 61, 32, 38, 104, 116, 116, 112, 50, 46, 84, 114, 97, 110, 115, 112, 111, 114, 116],   -- H2C [if enabled]: a.client.Transport = &http2.Transport
+        [85, 110, 105, 120, 83, 111, 99, 107, 101, 116, 32, 91, 105, 102, 32, 115, 111, 99, 107, 101, 116, 32, 33, 61, 32, 34, 34, 32, 38, 38, 32, 111, 107, 93, 58, 32, 116, 114, 46, 68, 105, 97, 108, 67, 111, 110, 116, 101, 120, 116, 32, 61, 32, 102, 117, 110, 99],   -- UnixSocket [if socket != "" && ok]: tr.DialContext = func
+        [67, 111, 110, 110, 101, 99, 116, 84, 111, 58, 32, 116, 114, 46, 68, 105, 97, 108, 67, 111, 110, 116, 101, 120, 116, 32, 61, 32, 102, 117, 110, 99],   -- ConnectTo: tr.DialContext = func
+        [68, 78, 83, 67, 97, 99, 104, 105, 110, 103, 32, 91, 105, 102, 32, 111, 107, 93, 58, 32, 116, 114, 46, 68, 105, 97, 108, 67, 111, 110, 116, 101, 120, 116, 32, 61, 32, 102, 117, 110, 99] ]   -- DNSCaching [if ok]: tr.DialContext = func
+    ∧ Vegeta.Extracted.c18TransportAssertions =
+      [ [67, 111, 110, 110, 101, 99, 116, 105, 111, 110, 115, 58, 32, 117, 110, 99, 104, 101, 99, 107, 101, 100],   -- Connections: unchecked
+        [77, 97, 120, 67, 111, 110, 110, 101, 99, 116, 105, 111, 110, 115, 58, 32, 117, 110, 99, 104, 101, 99, 107, 101, 100],   -- MaxConnections: unchecked
+        [80, 114, 111, 120, 121, 58, 32, 117, 110, 99, 104, 101, 99, 107, 101, 100],   -- Proxy: unchecked
+        [76, 111, 99, 97, 108, 65, 100, 100, 114, 58, 32, 117, 110, 99, 104, 101, 99, 107, 101, 100],   -- LocalAddr: unchecked
+        [75, 101, 101, 112, 65, 108, 105, 118, 101, 58, 32, 117, 110, 99, 104, 101, 99, 107, 101, 100],   -- KeepAlive: unchecked
+        [84, 76, 83, 67, 111, 110, 102, 105, 103, 58, 32, 117, 110, 99, 104, 101, 99, 107, 101, 100],   -- TLSConfig: unchecked
+        [72, 84, 84, 80, 50, 58, 32, 117, 110, 99, 104, 101, 99, 107, 101, 100],   -- HTTP2: unchecked
+        [72, 50, 67, 58, 32, 117, 110, 99, 104, 101, 99, 107, 101, 100],   -- H2C: unchecked
+        [85, 110, 105, 120, 83, 111, 99, 107, 101, 116, 58, 32, 99, 104, 101, 99, 107, 101, 100],   -- UnixSocket: checked
+        [80, 114, 111, 120, 121, 72, 101, 97, 100, 101, 114, 58, 32, 99, 104, 101, 99, 107, 101, 100],   -- ProxyHeader: checked
+        [67, 111, 110, 110, 101, 99, 116, 84, 111, 58, 32, 99, 104, 101, 99, 107, 101, 100],   -- ConnectTo: checked
+        [68, 78, 83, 67, 97, 99, 104, 105, 110, 103, 58, 32, 99, 104, 101, 99, 107, 101, 100] ]   -- DNSCaching: checked
+    := by decide
+
 
 end Vegeta.Props.C18
